@@ -111,6 +111,9 @@ def generate(outdir, seed, n_samples=None, n_loci=None, multi_sample_bam=None, b
     header = {"HD": {"VN": "1.5", "SO": "coordinate"}, "SQ": [{"SN": c, "LN": clen} for c in contigs]}
     multi = rng.random() < 0.35 if multi_sample_bam is None else multi_sample_bam
     groups = [samples] if multi else [[s] for s in samples]
+    # read-group IDs are only unique WITHIN a file: in a third of the one-sample-per-file datasets every file uses the same IDs
+    # (RG1, RG2) for its own sample, as files written by the same pipeline do (separate generator: the other draws are unchanged)
+    shared_ids = (not multi) and random.Random(seed ^ 0x5A17).random() < 0.33
     bams = {}
     rg_ids = {}  # read-group ID -> (sample, bam path), for --read-group-field ID
     qn = 0
@@ -118,7 +121,7 @@ def generate(outdir, seed, n_samples=None, n_loci=None, multi_sample_bam=None, b
         rgs = []
         for s in group:
             for r in range(rng.choice([1, 2])):
-                rgs.append({"ID": "RG%d_%s" % (r + 1, s), "SM": s, "LB": "lib", "PL": "Illumina", "PU": "u"})
+                rgs.append({"ID": ("RG%d" % (r + 1)) if shared_ids else ("RG%d_%s" % (r + 1, s)), "SM": s, "LB": "lib", "PL": "Illumina", "PU": "u"})
         hdr = dict(header)
         hdr["RG"] = rgs
         recs = []
@@ -192,7 +195,8 @@ def generate(outdir, seed, n_samples=None, n_loci=None, multi_sample_bam=None, b
         for s in group:
             bams[s] = path
         for rg in rgs:
-            rg_ids[rg["ID"]] = (rg["SM"], path)
+            if not shared_ids:  # (with shared IDs a read group is no unit of its own: --read-group-field ID is not used there)
+                rg_ids[rg["ID"]] = (rg["SM"], path)
     ploidy_file = os.path.join(outdir, "ploidy.txt")
     with open(ploidy_file, "w") as f:
         for s in samples:
@@ -215,7 +219,83 @@ def generate(outdir, seed, n_samples=None, n_loci=None, multi_sample_bam=None, b
         "ploidy_file": ploidy_file,
         "bad_locus": bad_locus,
         "multi_sample_bam": multi,
+        "shared_read_group_ids": shared_ids,
     }
+
+
+def generate_cohort(outdir, seed, n_samples=40):
+    """One locus with 8 bi-allelic SNVs and a LARGE cohort: n_samples tetraploids in one multi-sample BAM, every sample with four
+    haplotypes that no other sample carries, deep error-free full-length reads.  The run's population allele list then holds far
+    more than 127 ALT haplotypes (n_samples x 4): whatever numbers, indexes or counts alleles must not depend on the cohort size."""
+    import pysam
+    rng = random.Random(seed)
+    os.makedirs(outdir, exist_ok=True)
+    clen = 200
+    c = "CTG1"
+    ref = {c: "".join(rng.choice(BASES) for _ in range(clen))}
+    fasta = os.path.join(outdir, "ref.fasta")
+    with open(fasta, "w") as f:
+        f.write(">%s\n%s\n" % (c, ref[c]))
+    pysam.faidx(fasta)
+    a, b = 60, 90
+    name = "L00_%s_%d" % (c, a)
+    loci = [(c, a, b, name)]
+    pos = sorted(rng.sample(range(a + 1, b - 1), 8))
+    snvs = {}
+    for p0 in pos:
+        r = ref[c][p0]
+        snvs[(c, p0)] = [r, rng.choice([x for x in BASES if x != r])]
+    vcf = os.path.join(outdir, "snvs.vcf")
+    with open(vcf, "w") as f:
+        f.write("##fileformat=VCFv4.2\n##contig=<ID=%s,length=%d>\n#CHROM\tPOS\tID\tREF\tALT\tQUAL\tFILTER\tINFO\n" % (c, clen))
+        for p0 in pos:
+            al = snvs[(c, p0)]
+            f.write("%s\t%d\t.\t%s\t%s\t.\tPASS\t.\n" % (c, p0 + 1, al[0], al[1]))
+    vcfgz = vcf + ".gz"
+    pysam.tabix_compress(vcf, vcfgz, force=True)
+    pysam.tabix_index(vcfgz, preset="vcf", force=True)
+    bed = os.path.join(outdir, "targets.bed")
+    with open(bed, "w") as f:
+        f.write("%s\t%d\t%d\t%s\n" % (c, a, b, name))
+    samples = ["S%02d" % (i + 1) for i in range(n_samples)]
+    codes = list(range(1, 256))  # every non-reference combination of the 8 SNVs
+    rng.shuffle(codes)
+    header = {"HD": {"VN": "1.5", "SO": "coordinate"}, "SQ": [{"SN": c, "LN": clen}],
+              "RG": [{"ID": "RG_%s" % s, "SM": s, "LB": "lib", "PL": "Illumina", "PU": "u"} for s in samples]}
+    path = os.path.join(outdir, "cohort.bam")
+    qn = 0
+    with pysam.AlignmentFile(path, "wb", header=header) as out:
+        for i, s in enumerate(samples):
+            for code in codes[4 * i: 4 * i + 4]:
+                seq = list(ref[c][a:b])
+                for k, p0 in enumerate(pos):
+                    if code >> k & 1:
+                        seq[p0 - a] = snvs[(c, p0)][1]
+                seq = "".join(seq)
+                for _ in range(12):
+                    qn += 1
+                    seg = pysam.AlignedSegment()
+                    seg.query_name = "R%06d" % qn
+                    seg.query_sequence = seq
+                    seg.flag = 0
+                    seg.reference_id = 0
+                    seg.reference_start = a
+                    seg.mapping_quality = 60
+                    seg.cigartuples = [(0, b - a)]
+                    seg.query_qualities = pysam.qualitystring_to_array("I" * (b - a))
+                    seg.set_tag("RG", "RG_%s" % s)
+                    seg.set_tag("MD", md_tag(ref[c][a:b], seq))
+                    out.write(seg)
+    pysam.index(path)
+    ploidy = {s: 4 for s in samples}
+    ploidy_file = os.path.join(outdir, "ploidy.txt")
+    with open(ploidy_file, "w") as f:
+        for s in samples:
+            f.write("%s\t%d\n" % (s, 4))
+    return {"name": "cohort-%d" % seed, "dir": outdir, "fasta": fasta, "variants": vcfgz, "bed": bed, "loci": loci, "locus_snvs": [pos],
+            "snv_alleles": {"%s:%d" % k: v for k, v in snvs.items()}, "ref": ref, "samples": samples, "bams": {s: path for s in samples},
+            "rg_ids": {}, "bam_files": [path], "ploidy": ploidy, "ploidy_file": ploidy_file, "bad_locus": None, "multi_sample_bam": True,
+            "shared_read_group_ids": False}
 
 
 def write_bed(path, loci):
